@@ -15,44 +15,64 @@ PROP = 'C19'
 LEAN_MODULES = ['Glom.Props.C19']
 FACT_FILES = ['C19Facts', 'c19']
 READY = True
-THEOREMS_PER_MODULE = {'Glom.Props.C19': 9}
+THEOREMS_PER_MODULE = {'Glom.Props.C19': 21}
 MANIFEST = dict(
-    text="PARTIAL proof. Lean 4 theorems over a code-shaped model of glom/cli.py (mw_get_target's source selection "
-         "and precedence, first-character rule, spec_format/target_format tables extracted from the AST; "
-         "mw_handle_target; glom_cli; main) whose external functions are parameters: for ALL flags, file systems, "
-         "standard inputs and ALL behaviours of the externals, the ten deliveries of a spec (argument / --spec-file) "
-         "and target (argument / --target-file / - / --target-file - / piped stdin) print exactly "
-         "dumps(glom(load(target), literal(spec)), indent, sort_keys)+newline with exit 0 (c19_output), a GlomError "
-         "gives 'Class: message' and exit 1 (c19_glomerror_exit1), a target the loader rejects — with ANY class a "
-         "loader raises on text — or that cannot be read (missing, a directory, bytes that are no UTF-8; file or "
-         "standard input) gives a UsageError, never another exception (c19_bad_target_usage_error, "
-         "c19_unreadable_target_usage_error: the model catches exactly the classes the `except` clauses of cli.py "
-         "NAME, per target format and per read, extracted on every run; c19_facts_wf demands `Exception` or a class "
-         "above every class the probe saw the format's loader raise, and OSError+UnicodeError around every read), "
-         "and unless --spec-format is "
-         "given the outcome is independent of the exec-based evaluator and of json.loads: only repr and "
-         "ast.literal_eval see the spec text (c19_model_no_exec). c19_never_executes is decided on the call/"
-         "reference graph extracted from cli.py on every run: no eval/exec/compile/__import__/unsafe loader/"
-         "process spawning is reachable from any entry point without the `spec_format == 'python-full'` edge, the "
-         "flag default is 'python'. Model tied to the code by running glom.cli.main in-process on generated "
-         "targets x literal specs x deliveries x formats x flags and a hostile-spec corpus with planted side "
-         "effects.",
-    note="partial: the JSON/YAML/TOML parsers, ast.literal_eval, repr, json.dumps, is_scalar, str(), glom.glom itself "
-         "(C01-C18) and face's argument parsing are EXTERNAL: parameters of the model, exercised by the "
-         "correspondence only (their outputs on the candidate texts are computed by the harness with the real "
-         "functions and handed to the model as tables). Trusted fact about Python used by the proof: "
-         "ast.literal_eval(repr(s)) == s for every str s (hypothesis ReprOk, checked on every case); a loader "
-         "raises Exception subclasses only (LoadErrOk) and a failing text read an OSError or a UnicodeError "
-         "(ReadErrOk), both evaluated by the driver on every case. The PROBE (extract/facts/c19.py: the installed "
-         "json/ast/yaml/tomllib loaders run on a catalogue of 245 malformed texts, grouped by raised class: 22 "
-         "(loader, class) groups) is trusted to reach every class a loader can raise on text only where a handler does not "
-         "name Exception itself — the code as it is does (c19_handlers_name_exception). --debug/"
-         "--inspect are not modelled. 'never executes' is about cli.py's own code: that ast.literal_eval and "
-         "json.loads do not execute code is CPython's guarantee, exercised by the hostile corpus. Trusted: Lean "
-         "kernel + {propext, Classical.choice, Quot.sound}; extractor (AST patterns of cli.py, the call graph "
-         "construction incl. references and aliases of dangerous names); harness/driver.",
-    technique='Lean 4 refinement proof over an externals-parametric model (delivery independence by case analysis) '
-              '+ reachability on the extracted call graph by decide + differential correspondence through cli.main',
+    text="PARTIAL proof. Lean 4 theorems over a code-shaped model of glom/cli.py AS A FUNCTION OF THE RAW ARGUMENT LIST, "
+         "the files and standard input: face's parser (flag-name normalisation, `--flag=value` / `--flag value`, flags "
+         "only before the first positional argument, `--`, duplicate / unknown / valueless flags, `--flagfile` with "
+         "nesting and cycles, `--help` winning over errors found after the flags were read) run on the option table READ "
+         "OFF the Command object get_command() builds (c19_facts_wf: tableWF — the ten flags, kinds, `missing` defaults, "
+         "repetition policy, at most two positional arguments, who receives what); then mw_get_target (source selection "
+         "and precedence, first-character rule, spec_format / target_format tables extracted from the AST), "
+         "mw_handle_target, glom_cli (--debug / --inspect wrap the spec in Inspect, breakpoint / post-mortem only while "
+         "stdin is open; GlomError -> exit 1; indent 0 -> None; --scalar), main. External functions are parameters. For ALL "
+         "argument lists, file systems, standard inputs and ALL behaviours of the externals: the ten deliveries of a spec "
+         "(argument / --spec-file) and target (argument / --target-file / - / --target-file - / piped stdin) print exactly "
+         "dumps(glom(load(target), literal(spec)), indent, sort_keys)+newline with exit 0 (c19_output), and — for ANY spec "
+         "format and flags, for every facts value — the same texts give the same outcome through every pair of channels "
+         "(c19_delivery_independent; c19_channels_check is the checker theorem of the channel observation); a GlomError "
+         "gives 'Class: message' and exit 1 (c19_glomerror_exit1); a target the loader rejects — with ANY class — or that "
+         "cannot be read gives a UsageError (c19_bad_target_usage_error, c19_unreadable_target_usage_error); the model IS "
+         "the manual-style decision table refMain for every flag combination (c19_main_total: order of the problems, each "
+         "usage error kind, literal defaults, exact format names, {} for no / an empty target); the process status is 0 "
+         "or 1 for every argument list, 1 with text on stdout only for a GlomError, 0 only with the help text or a rendered "
+         "result (c19_exit_status, c19_status_zero); the canonical command line of any flags parses back to them "
+         "(c19_parse_render), never more positional arguments than allowed (c19_parse_posargs). NEVER EXECUTES: decided on "
+         "the call / reference graph extracted from cli.py (c19_never_executes: nothing dangerous reachable without the "
+         "`spec_format == 'python-full'` edge; the spec file NAME is only opened / truth-tested / quoted, the spec format "
+         "only compared with the three documented names — specNameWF); in the model the exec-based evaluator is irrelevant "
+         "unless spec_format is EXACTLY 'python-full' (c19_exec_only_python_full: any other spelling is a usage error), "
+         "for every raw argument list that does not carry that text (c19_argv_never_executes), whatever the spec file is "
+         "called (c19_spec_file_name_irrelevant), and in the default format not even json.loads sees the spec "
+         "(c19_model_no_exec). WHAT IS READ IS WHAT IS LOADED: textFlowWF (c19_facts_wf) — no call, method or slice "
+         "between the read of a text (stdin, files, arguments) and its loader / parser. Model tied to the code by running "
+         "glom.cli.main in-process (and `python -m glom` as a process) on generated targets x literal specs x deliveries x "
+         "formats x flags, raw command lines with one-edit mutations at every parser position, flagfiles, --debug / "
+         "--inspect, documents whose meaning changes under a text normalisation delivered through every channel in one "
+         "case, and a hostile-spec corpus with planted side effects.",
+    note="partial: the JSON/YAML/TOML parsers, ast.literal_eval, repr, int(), json.dumps, is_scalar, str(), glom.glom itself "
+         "(C01-C18) with what it prints, Inspect(...), the help text, shlex / codecs for flagfiles are EXTERNAL: parameters "
+         "of the model, exercised by the correspondence only (their outputs on the candidate texts are computed by the "
+         "harness with the real functions and handed to the model as tables). face's parser is MODELLED (face 24.0 as "
+         "installed; its source is not extracted — a different face version shows as a correspondence disagreement); the "
+         "option table is extracted. Trusted facts about Python used by the proofs, each evaluated by the driver on every "
+         "case: ast.literal_eval(repr(s)) == s (ReprOk); a loader raises Exception subclasses only (LoadErrOk); a failing "
+         "text read raises an OSError or a UnicodeError (ReadErrOk); glom.glom prints nothing unless the spec is an "
+         "Inspect (QuietOk); int(str(n)) == n (IntReprOk, for the canonical command line only). The PROBE "
+         "(extract/facts/c19.py: the installed loaders on a catalogue of 245 malformed texts, 22 (loader, class) groups) is "
+         "trusted to reach every class a loader can raise only where a handler does not name Exception — the code as it is "
+         "does (c19_handlers_name_exception). The interactive debugger entered by --debug / --inspect is replaced by a "
+         "marker line during the correspondence. Flag-name matching is modelled with ASCII lower-casing (no flag name "
+         "contains a letter some non-ASCII character lower-cases to). A text file's text is what text-mode reading gives "
+         "(universal newlines): files with carriage returns are read back by the oracle. 'never executes' is about "
+         "cli.py's own code: that ast.literal_eval and json.loads do not execute code is CPython's guarantee, exercised by "
+         "the hostile corpus. Trusted: Lean kernel + {propext, Classical.choice, Quot.sound}; extractor (AST patterns of "
+         "cli.py, the call graph construction incl. references and aliases of dangerous names, the text-flow analysis, "
+         "introspection of the Command object); harness/driver.",
+    technique='Lean 4 refinement proof over an externals-parametric model from the raw argument list down (delivery '
+              'independence; total decision table; parser lemmas by structural recursion) + reachability on the extracted '
+              'call graph and text-flow / option-table facts by decide + differential correspondence through cli.main and '
+              '`python -m glom`',
     ref='DESIGN.md §3 C19')
 RULE = ('type-directed: a JSON-representable target (nested dicts/lists/strings/ints/bools/None/floats) is generated, '
         'literal specs (dotted paths, dicts, lists, tuples, nested) are derived from its shape so that most '
@@ -62,24 +82,36 @@ RULE = ('type-directed: a JSON-representable target (nested dicts/lists/strings/
         'names a missing file, gives both an argument and a file, an unknown format, a missing path segment, an '
         'empty text, a target that is a complete document followed by garbage / a second document / a stray bracket '
         'or preceded by a BOM, a malformed literal, --spec-format json / python-full (benign specs only); '
-        'MALFORMED TARGETS BY RAISED CLASS: the real loaders are probed with the catalogue of extract/facts/c19.py '
-        'and for every (loader, class it raises) — JSONDecodeError, plain ValueError of the digit limit, '
-        'RecursionError, SyntaxError, IndentationError, TypeError of unhashable keys, MemoryError of the parser '
-        'stack, the YAML Parser/Scanner/Composer/Reader/ConstructorError and the ValueError/AttributeError/KeyError/'
-        'IndexError of its scalar constructors, TOMLDecodeError … — a text of the group, bare or embedded as a leaf '
+        'CHANNEL EQUIVALENCE: one case = the same spec text and target text through several (all ten) pairs of '
+        'channels, both files present in every delivery — for a sample of the ordinary cases and for '
+        'NORMALISATION-SENSITIVE DOCUMENTS: per format x per text normalisation (strip / lstrip / rstrip / ASCII strip / '
+        'final newline / splitlines / universal newlines / expandtabs / BOM / NFC / NFKC / dedent / trailing blanks / '
+        'case folding) a document — generated, decorated with outer whitespace from a catalogue incl. form feed, NBSP, '
+        'line separator, or whitespace only, YAML with block scalars / chomping indicators / an indented body, TOML '
+        'multi-line strings — that the REAL loader gives another meaning once normalised (found by asking the loader); '
+        'RAW COMMAND LINES: the flags of a generated case in random spellings (case, _ / -, 1-3 dashes), `=` or separate '
+        'values, any order — the model\'s parser must arrive at the same flags — and one edit at every position face\'s '
+        'parser looks at: unknown flag, valueless flag, duplicate, non-int / odd-int --indent, help among the flags / '
+        'with a later error, too many positional arguments, `--` variants, flag after a positional argument, odd first '
+        'arguments, constant flag with a value, flag-like values, empty argv, format names in another case, `=` in '
+        'values; FLAGFILES (flags, comments, nesting, cycle, twice, missing, directory, not UTF-8, extra arguments, '
+        'unknown flag, unbalanced quote, help, duplicates across file and command line); --debug / --inspect with '
+        'standard input open or closed (the debugger replaced by a marker); `python -m glom` as a process (exit status '
+        'of console_main); MALFORMED TARGETS BY RAISED CLASS: the real loaders are probed with the catalogue of '
+        'extract/facts/c19.py and for every (loader, class it raises) a text of the group, bare or embedded as a leaf '
         'of a generated document when that keeps the class, is delivered by argument, file, -, --target-file - and '
-        'piped stdin; UNREADABLE TARGETS: target file / standard input / spec file given as BYTES that are no UTF-8 '
-        '(Latin-1, UTF-16, a stray ff/80/c3, a truncated sequence, a cp1252 quote at a random position of a generated '
-        'document), as bytes that are UTF-8 (read like any text), as a directory; plus a corpus of '
-        'hostile spec texts (calls, attribute access, lambdas, comprehensions, f-strings, dunder tricks), each '
-        'planting a marker file, delivered by argument and by files named *.glom / *.py / *.PY / *.json / *.yml (spec-file names with such '
-        'extensions are also used for benign specs). non-trivial = the property speaks about the '
-        'case (result / GlomError / target usage error / malformed spec); distinct = distinct (argv, files, stdin)')
-TRUSTED = ['externals (parsers, literal_eval, repr, dumps, glom.glom, is_scalar, face) enter the model as tables '
-           'computed by the harness with the real functions']
-ASSUMPTIONS = ['--debug / --inspect not used', 'positional arguments do not start with "-" except the single "-"',
-               'standard input decodes strictly as UTF-8 (a UTF-8 locale; under the C locale CPython reads it with '
-               'surrogateescape and every byte string is text)']
+        'piped stdin; UNREADABLE TARGETS: target file / standard input / spec file given as BYTES that are no UTF-8, '
+        'as bytes that are UTF-8, as a directory; plus a corpus of hostile spec texts (calls, attribute access, '
+        'lambdas, comprehensions, f-strings, dunder tricks), each planting a marker file, delivered by argument and '
+        'by files named *.glom / *.py / *.PY / *.json / *.yml. non-trivial = the property speaks about the case '
+        '(result / GlomError / target usage error / malformed spec); distinct = distinct (argv, files, stdin)')
+TRUSTED = ['externals (parsers, literal_eval, repr, int, dumps, glom.glom, Inspect, is_scalar, shlex, the help formatter) '
+           'enter the model as tables computed by the harness with the real functions',
+           'face 24.0\'s parser is modelled by hand (Model/C19Face.lean), its option table extracted']
+ASSUMPTIONS = ['standard input decodes strictly as UTF-8 (a UTF-8 locale; under the C locale CPython reads it with '
+               'surrogateescape and every byte string is text)',
+               'the interactive debugger of --debug / --inspect is not driven (replaced by a marker line)',
+               'flagfile nesting + lines stay below the model bound (4096 steps)']
 
 TMP = '/tmp/c19_%d' % os.getpid()
 T = '@T'
@@ -95,8 +127,8 @@ class Ids:
         self.m = {}
         self.v = {}
 
-    def of(self, tag, v):
-        k = tag + ':' + type(v).__name__ + ':' + repr(v)
+    def of(self, tag, v, key=None):
+        k = tag + ':' + type(v).__name__ + ':' + (key if key is not None else repr(v))
         if k not in self.m:
             self.m[k] = len(self.m)
             self.v[self.m[k]] = v
@@ -127,18 +159,131 @@ LONG_TEXT = 2000     # above this only the loader of the case's own format is ru
 FMT_KIND = {'json': 'json', 'yaml': 'yaml-safe', 'yml': 'yaml-safe', 'toml': 'toml', 'python': 'python-literal'}
 
 
-def oracle(case):
+class _Marker:
+    """stand-ins for pdb.set_trace / pdb.post_mortem while the CLI (or the oracle) runs: the
+    interactive debugger is replaced by a line on standard output saying it would have been entered"""
+    @staticmethod
+    def set_trace(*a, **kw):
+        print('<pdb.set_trace>')
+
+    @staticmethod
+    def post_mortem(*a, **kw):
+        print('<pdb.post_mortem>')
+
+
+@contextlib.contextmanager
+def no_debugger():
+    import pdb
+    old = pdb.set_trace, pdb.post_mortem
+    pdb.set_trace, pdb.post_mortem = _Marker.set_trace, _Marker.post_mortem
+    try:
+        yield
+    finally:
+        pdb.set_trace, pdb.post_mortem = old
+
+
+def face_flags(raw):
+    """the flags face's own parser reads from a raw argument list (None when it rejects it): used to
+    choose the candidate texts of the oracle tables only"""
+    from glom import cli
+    try:
+        cpr = cli.get_command().parse([real(x) for x in raw])
+    except BaseException:
+        return None
+    fl = cpr.flags or {}
+    return {'posargs': [x.replace(TMP, T) for x in (cpr.posargs or ())],
+            'target_file': unreal(fl.get('target_file')), 'target_format': fl.get('target_format'),
+            'spec_file': unreal(fl.get('spec_file')), 'spec_format': fl.get('spec_format'),
+            'indent': fl.get('indent'), 'scalar': bool(fl.get('scalar')), 'debug': bool(fl.get('debug')),
+            'inspect': bool(fl.get('inspect')), '_parsed': True}
+
+
+def unreal(p):
+    return p.replace(TMP, T) if isinstance(p, str) else p
+
+
+def flagfile_table(case, raw):
+    """what `--flagfile PATH` reads, the way face reads it (codecs.open utf-8, splitlines, shlex)"""
+    import codecs
+    import shlex
+    paths = [p for p, _c in case['files']]
+    toks = list(raw or [])
+    for t in list(toks):
+        if '=' in t:
+            toks.append(t.split('=', 1)[1])
+    seen, table, absp, alltoks = set(), [], [], []
+    work = [t for t in toks if t.startswith(T)] + paths
+    while work:
+        p = work.pop()
+        if p in seen or len(seen) > 40:
+            continue
+        seen.add(p)
+        try:
+            absp.append([p, os.path.abspath(real(p)).replace(TMP, T)])
+        except ValueError:
+            pass
+        try:
+            with codecs.open(real(p), 'r', 'utf-8') as f:
+                text = f.read()
+        except (UnicodeError, EnvironmentError) as e:       # what face turns into an ArgumentParseError
+            table.append([p, {'err': type(e).__name__}])
+            continue
+        except Exception as e:                               # anything else leaves face as it is
+            table.append([p, {'exc': type(e).__name__}])
+            continue
+        lines = []
+        for line in text.splitlines():
+            try:
+                tk = [x.replace(TMP, T) for x in shlex.split(line, comments=True)]
+                lines.append({'tok': tk})
+                for x in tk:
+                    alltoks.append(x)
+                    if '=' in x:
+                        alltoks.append(x.split('=', 1)[1])
+                work += [x for x in alltoks if x.startswith(T)]
+            except ValueError as e:
+                lines.append({'err': type(e).__name__})
+        table.append([p, {'lines': lines}])
+    return table, absp, alltoks
+
+
+def oracle(case, raw=None, more_targets=(), more_specs=()):
     import glom
     from boltons.iterutils import is_scalar
-    av = case['argv']
+    av = case.get('argv')
+    if av is None:
+        av = face_flags(raw) or {'posargs': [], '_parsed': False}
     MROS.clear()
     ext = {'parse': [], 'load': [], 'repr': [], 'strspec': [], 'glom': [], 'dumps': [], 'scalar': [], 'read': [],
-           'stdin_text': None, 'stdin_err': None}
+           'stdin_text': None, 'stdin_err': None, 'inspect': [], 'printed': [], 'parseint': []}
+    if raw is not None:
+        ext['flagfile'], ext['abspath'], fftoks = flagfile_table(case, raw)
+        cands = []
+        for t in raw[1:]:
+            cands.append(t)
+            if '=' in t:
+                cands.append(t.split('=', 1)[1])
+        for t in dict.fromkeys(cands + fftoks):
+            if len(t) <= 40:
+                try:
+                    n = int(real(t))
+                    ext['parseint'].append([t, n if abs(n) < 2 ** 62 else None])
+                except ValueError:
+                    ext['parseint'].append([t, None])
+        if any(t.lstrip('-').split('=', 1)[0].lower() in ('h', 'help') for t in raw[1:] + fftoks):
+            from glom import cli
+            cmd = cli.get_command()
+            prog = raw[0] if raw else 'glom'
+            if case.get('proc'):       # `python -m glom`: face shows how the program was really started
+                from face.utils import get_minimal_executable
+                prog = '%s -m glom' % get_minimal_executable()
+            ext['help'] = cmd.help_handler.formatter.get_help_text(cmd, subcmds=(), program_name=prog) + '\n'
     # what reading gives: files whose content is not a text of the case (bytes, a directory) are
-    # read back the way the CLI reads them; standard input given as bytes is decoded strictly
+    # read back the way the CLI reads them (a text with a carriage return too: text mode translates
+    # it); standard input given as bytes is decoded strictly
     files = {}
     for p, c in case['files']:
-        if isinstance(c, dict):
+        if isinstance(c, dict) or (isinstance(c, str) and '\r' in c):
             st, v = try_call(read_text, real(p))
             ext['read'].append([p, {'ok': v.replace(TMP, T)} if st == 'ok' else {'err': v}])
             files[p] = v.replace(TMP, T) if st == 'ok' else None
@@ -150,6 +295,9 @@ def oracle(case):
                                                   errors='strict').read())
         stdin_text = v if st == 'ok' else ''
         ext['stdin_text'], ext['stdin_err'] = (v, None) if st == 'ok' else (None, v)
+    if case.get('stdin_open') is False:
+        ext['stdin_text'], ext['stdin_err'] = None, 'ValueError'       # read() of a closed file
+        MROS['ValueError'] = ['ValueError', 'Exception', 'BaseException']
     ids = Ids()
     loaders = {'json': json.loads, 'python-literal': ast.literal_eval}
     try:
@@ -168,12 +316,14 @@ def oracle(case):
     if av.get('target_file') and files.get(av['target_file']) is not None:
         tcands.append(files[av['target_file']])
     tcands.append(stdin_text)
+    tcands += list(more_targets) + [files[p] for p, _c in case['files'] if p == TARGET_PATH and files.get(p) and more_targets]
     tcands = [t for t in dict.fromkeys(tcands) if t]
     scands = []
     if av['posargs']:
         scands.append(av['posargs'][0])
     if av.get('spec_file') and files.get(av['spec_file']) is not None:
         scands.append(files[av['spec_file']])
+    scands += list(more_specs) + [files[p] for p, _c in case['files'] if p == SPEC_PATH and files.get(p) and more_specs]
     scands = [s for s in dict.fromkeys(scands) if s]
     targets = {}
     specs = {}
@@ -218,11 +368,24 @@ def oracle(case):
     indents = [None, 2]
     if av.get('indent') not in (None, 0):
         indents.append(av['indent'])
+    if av.get('indent') == 0:
+        indents.append(None)
     results = {}
+    if av.get('debug') or av.get('inspect'):
+        dbg, insp = bool(av.get('debug')), bool(av.get('inspect'))
+        is_open = case.get('stdin_open') is not False
+        flags = [insp, insp, insp and is_open, dbg and is_open]
+        for si, sp in list(specs.items()):
+            w = glom.Inspect(sp, echo=flags[0], recursive=flags[1], breakpoint=flags[2], post_mortem=flags[3])
+            wi = ids.of('S', w, key='Inspect(%d,%r)' % (si, flags))
+            specs[wi] = w
+            ext['inspect'].append([si] + flags + [wi])
     for ti, t in targets.items():
         for si, s in specs.items():
+            buf = io.StringIO()
             try:
-                r = glom.glom(t, s)
+                with contextlib.redirect_stdout(buf):
+                    r = glom.glom(t, s)
             except glom.GlomError as ge:
                 ext['glom'].append([ti, si, {'glomerror': [type(ge).__name__, '']}])
             except BaseException as e:
@@ -231,6 +394,8 @@ def oracle(case):
                 ri = ids.of('R', r)
                 results[ri] = r
                 ext['glom'].append([ti, si, {'ok': ri}])
+            if buf.getvalue():
+                ext['printed'].append([ti, si, buf.getvalue().replace(TMP, T)])
     for ri, r in results.items():
         for ind in dict.fromkeys(indents):
             st, v = try_call(lambda: json.dumps(r, indent=ind, sort_keys=True))
@@ -276,63 +441,150 @@ def build_cmdline(av):
                       ('--spec-file', 'spec_file'), ('--spec-format', 'spec_format'), ('--indent', 'indent')):
         if av.get(key) is not None:
             out += [flag, str(real(av[key]))]
-    if av.get('scalar'):
-        out.append('--scalar')
+    for flag in ('scalar', 'debug', 'inspect'):
+        if av.get(flag):
+            out.append('--' + flag)
     return out + [real(p) for p in av['posargs']]
 
 
-def run_impl(case):
-    from glom import cli
-    from face import UsageError, CommandLineError
-    out = dict(case)
+def write_files(case):
     shutil.rmtree(TMP, ignore_errors=True)
     os.makedirs(TMP)
+    for p, c in case['files']:
+        if isinstance(c, dict) and c.get('dir'):
+            os.makedirs(real(p))
+        elif isinstance(c, dict):
+            with open(real(p), 'wb') as f:
+                f.write(file_bytes(c))
+        elif c is not None:
+            with open(real(p), 'w', newline='') as f:      # as it is: no newline translation on the way in
+                f.write(real(c))
+
+
+def run_cli(case, raw):
+    """glom.cli.main(raw) in-process on the case's files and standard input → {'outcome', 'side_effect'}"""
+    from glom import cli
+    from face import UsageError, CommandLineError
+    marker = os.path.join(TMP, 'MARK')
+    so, se = io.StringIO(), io.StringIO()
+    old_in = sys.stdin
+    sys.stdin = make_stdin(case)
+    if case.get('stdin_open') is False:
+        sys.stdin.close()
     try:
-        for p, c in case['files']:
-            if isinstance(c, dict) and c.get('dir'):
-                os.makedirs(real(p))
-            elif isinstance(c, dict):
-                with open(real(p), 'wb') as f:
-                    f.write(file_bytes(c))
-            elif c is not None:
-                with open(real(p), 'w') as f:
-                    f.write(real(c))
-        out['ext'] = oracle(case)
+        with contextlib.redirect_stdout(so), contextlib.redirect_stderr(se), no_debugger():
+            try:
+                rc = cli.main([real(x) for x in raw])
+                outcome = {'exit': [int(rc or 0), so.getvalue().replace(TMP, T)]}
+            except UsageError as ue:
+                # a usage error: non-zero status and NO result on standard output
+                if so.getvalue():
+                    outcome = {'exc': '<result-printed-before-usage-error>'}
+                elif ue.code in (0, None):
+                    outcome = {'exit': [0, '']}
+                else:
+                    outcome = {'usage': True}
+            except CommandLineError as ce:
+                # face rejected the command line: non-zero status, nothing on standard output
+                outcome = {'cli': True} if (not so.getvalue() and ce.code not in (0, None)) \
+                    else {'exc': '<command-line-error-with-output-or-status-0>'}
+            except SystemExit as e:
+                outcome = {'exit': [e.code if isinstance(e.code, int) else 1, so.getvalue().replace(TMP, T)]}
+            except BaseException as e:
+                outcome = {'exc': type(e).__name__}
+    finally:
+        sys.stdin = old_in
+    return {'outcome': outcome, 'side_effect': os.path.exists(marker)}
+
+
+def raw_of(case):
+    if case.get('raw') is not None:
+        return list(case['raw'])
+    return ['glom'] + [x.replace(TMP, T) for x in build_cmdline(case['argv'])]
+
+
+def run_impl(case):
+    out = dict(case)
+    try:
+        if case.get('vias'):
+            return run_channels(case, out)
+        raw = raw_of(case)
+        out['raw'] = raw
+        write_files(case)
+        with no_debugger():
+            out['ext'] = oracle(case, raw)
         marker = os.path.join(TMP, 'MARK')
         if os.path.exists(marker):        # an oracle call must not have planted it either
             out['impl'] = {'outcome': {'exc': '<oracle-executed-spec>'}, 'side_effect': True}
             return out
-        so, se = io.StringIO(), io.StringIO()
-        old_in = sys.stdin
-        sys.stdin = make_stdin(case)
-        try:
-            with contextlib.redirect_stdout(so), contextlib.redirect_stderr(se):
-                try:
-                    rc = cli.main(['glom'] + build_cmdline(case['argv']))
-                    outcome = {'exit': [int(rc or 0), so.getvalue().replace(TMP, T)]}
-                except UsageError as ue:
-                    # a usage error: non-zero status and NO result on standard output
-                    if so.getvalue():
-                        outcome = {'exc': '<result-printed-before-usage-error>'}
-                    elif ue.code in (0, None):
-                        outcome = {'exit': [0, '']}
-                    else:
-                        outcome = {'usage': True}
-                except CommandLineError:
-                    outcome = None
-                except SystemExit as e:
-                    outcome = {'exit': [e.code if isinstance(e.code, int) else 1, so.getvalue().replace(TMP, T)]}
-                except BaseException as e:
-                    outcome = {'exc': type(e).__name__}
-        finally:
-            sys.stdin = old_in
-        if outcome is None:
-            out['impl'] = {'clierror': True}
+        if case.get('proc'):
+            out['impl'] = run_process(case, raw)
         else:
-            out['impl'] = {'outcome': outcome, 'side_effect': os.path.exists(marker)}
+            out['impl'] = run_cli(case, raw)
     finally:
         shutil.rmtree(TMP, ignore_errors=True)
     return out
+
+
+SPEC_PATH, TARGET_PATH = T + '/spec.glom', T + '/target.dat'
+
+
+def via_case(req, sv, tv):
+    """the request delivered through one pair of channels; BOTH files exist in every delivery"""
+    c = assemble(req['spec'], req['target'], sv, tv, req['fmt'], req['indent'], req['scalar'], junk=req['junk'],
+                 tty=req['tty'])
+    c['argv']['spec_format'] = req.get('spec_format')
+    c['files'] = [[SPEC_PATH, req['spec']], [TARGET_PATH, req['target']]]
+    return c
+
+
+def run_channels(case, out):
+    """channel mode: the same spec text and target text through every pair of channels of `vias`"""
+    req = case['req']
+    subs = [via_case(req, sv, tv) for sv, tv in case['vias']]
+    first = subs[0]
+    for k in ('argv', 'files', 'stdin', 'tty'):
+        out[k] = first[k]
+    write_files(first)
+    ext = oracle(first, None, more_targets=[req['target'], req['junk']], more_specs=[req['spec']])
+    # the junk on standard input of the deliveries that do not use it is a candidate text as well
+    out['ext'] = ext
+    marker = os.path.join(TMP, 'MARK')
+    if os.path.exists(marker):
+        out['impl_vias'] = [{'outcome': {'exc': '<oracle-executed-spec>'}, 'side_effect': True} for _ in subs]
+        return out
+    res = []
+    for sub in subs:
+        write_files(sub)
+        res.append(run_cli(sub, ['glom'] + [x.replace(TMP, T) for x in build_cmdline(sub['argv'])]))
+    out['impl_vias'] = res
+    out['impl'] = res[0]
+    return out
+
+
+def run_process(case, raw):
+    """`python -m glom …` as a process: exit status and standard output of console_main"""
+    import subprocess
+    repo = os.environ.get('GLOM_REPO', '/repo')
+    data = file_bytes(case['stdin']) if isinstance(case['stdin'], dict) else real(case['stdin']).encode('utf-8')
+    env = dict(os.environ, PYTHONPATH=repo, PYTHONIOENCODING='utf-8:strict', PYTHONDONTWRITEBYTECODE='1')
+    env.pop('GLOM_CLI_DEBUG', None)
+    p = subprocess.run([sys.executable, '-m', 'glom'] + [real(x) for x in raw[1:]], input=data, env=env,
+                       stdout=subprocess.PIPE, stderr=subprocess.PIPE, cwd=TMP, timeout=60)
+    so = p.stdout.decode('utf-8', 'replace').replace(TMP, T)
+    se = p.stderr.decode('utf-8', 'replace')
+    first = (se.strip().splitlines() or [''])[0]
+    if p.returncode == 0 or (p.returncode == 1 and so):
+        outcome = {'exit': [p.returncode, so]}
+    elif 'Traceback (most recent call last)' in se:
+        last = [ln for ln in se.strip().splitlines() if ln and not ln.startswith(' ')][-1]
+        outcome = {'exc': last.split(':')[0].split('.')[-1]}
+    elif first.startswith('error: ') and p.returncode == 1:
+        # face names the program in the errors of its own parser, not in a UsageError of the application
+        outcome = {'cli': True} if '__main__.py' in first.split(': ')[1] else {'usage': True}
+    else:
+        outcome = {'exc': '<status %d: %s>' % (p.returncode, se[-80:])}
+    return {'outcome': outcome, 'side_effect': os.path.exists(os.path.join(TMP, 'MARK')), 'proc': True}
 
 
 # ------------------------------------------------------------------ generators
@@ -825,18 +1077,434 @@ def unreadable_cases(rng, n):
         yield c
 
 
+# ------------------------------------------------------------------ what is read is what is loaded
+# Documents whose meaning changes under a NORMALISATION of the text (outer whitespace stripped, line
+# ends unified, tabs expanded, a BOM dropped, Unicode normal forms …): found by asking the real loaders.
+def _nfc(s):
+    import unicodedata
+    return unicodedata.normalize('NFC', s)
+
+
+def _nfkc(s):
+    import unicodedata
+    return unicodedata.normalize('NFKC', s)
+
+
+def _dedent(s):
+    import textwrap
+    return textwrap.dedent(s)
+
+
+NORMALISATIONS = [
+    ('strip', lambda s: s.strip()), ('lstrip', lambda s: s.lstrip()), ('rstrip', lambda s: s.rstrip()),
+    ('strip-ascii', lambda s: s.strip(' \t\r\n')), ('rstrip-newline', lambda s: s.rstrip('\n')),
+    ('one-final-newline', lambda s: s.rstrip('\n') + '\n'), ('splitlines', lambda s: '\n'.join(s.splitlines())),
+    ('universal-newlines', lambda s: s.replace('\r\n', '\n').replace('\r', '\n')),
+    ('expandtabs', lambda s: s.expandtabs()), ('drop-bom', lambda s: s.lstrip('\ufeff')),
+    ('nfc', _nfc), ('nfkc', _nfkc), ('dedent', _dedent), ('strip-lines', lambda s: '\n'.join(l.rstrip() for l in s.split('\n'))),
+    ('casefold', lambda s: s.lower()),
+]
+WS_UNITS = [' ', '\n', '\t', '\r\n', '\r', '\x0c', '\x0b', '\u00a0', '\u2028', '\x1c', '\x85', '  ', '\n\n', ' \n',
+            '\n ', '\ufeff', '\u200b', '\n  ']
+_INFEASIBLE = set()
+
+
+def cli_value(kind, text):
+    """what the CLI makes of a target text: an empty text is {} before any loader is asked"""
+    if not text:
+        return ('ok', '{}')
+    f = facts_mod().loaders().get(kind)
+    try:
+        return ('ok', repr(f(text)))
+    except BaseException as e:      # measuring the loader
+        return ('err', type(e).__name__)
+
+
+def decorated_doc(rng, kind):
+    """a document of the format, possibly with significant outer / inner whitespace"""
+    fmt = {'json': 'json', 'python-literal': 'python', 'yaml-safe': 'yaml', 'toml': 'toml'}[kind]
+    k = rng.randrange(10)
+    if k == 0:          # nothing but whitespace
+        return ''.join(rng.choice(WS_UNITS) for _ in range(rng.choice([1, 1, 2, 3])))
+    target = gen_value(rng, rng.choice([1, 2]), toml=(fmt == 'toml'))
+    if fmt == 'toml' and not isinstance(target, dict):
+        target = {'a': target}
+    if isinstance(target, dict) and rng.random() < 0.6:
+        target[rng.choice(['name', 'k0', 'log'])] = rng.choice(
+            ['line one\nline two\n', 'x\n\n', ' padded ', 'tab\there', 'e\u0301', '\ufb01n', 'MiXed', 'a\u00a0b', 'trail  \nnext'])
+    if fmt == 'yaml':
+        import yaml
+        style = rng.choice([None, '|', '|', '>', '"'])
+        doc = yaml.safe_dump(target, default_style=style, default_flow_style=rng.choice([None, False]), allow_unicode=True)
+        if rng.random() < 0.3:      # keep / strip chomping, extra blank lines at the end
+            doc = doc.replace(': |\n', rng.choice([': |+\n', ': |-\n', ': |2\n', ': |\n']), 1) + rng.choice(['', '\n', '\n\n'])
+        if rng.random() < 0.3:      # the whole document indented
+            doc = ''.join(rng.choice(['  ', ' ', '\t']) + ln for ln in doc.splitlines(True))
+    elif fmt == 'toml':
+        doc = toml_dumps(target)
+        if rng.random() < 0.4:
+            doc += 'ml = """\nfirst\n  second  \n"""' + rng.choice(['', '\n'])
+    elif fmt == 'python':
+        doc = repr(target)
+        if rng.random() < 0.3:
+            doc = doc[:-1] + rng.choice(['\n', '\t', ' \\\n']) + doc[-1]
+    else:
+        doc = json.dumps(target, indent=rng.choice([None, 2, '\t']), ensure_ascii=rng.random() < 0.5)
+    if k < 6:
+        pre = ''.join(rng.choice(WS_UNITS) for _ in range(rng.choice([0, 1, 1, 2])))
+        post = ''.join(rng.choice(WS_UNITS) for _ in range(rng.choice([0, 1, 1, 2])))
+        doc = pre + doc + post
+    if k == 6:
+        doc = doc.replace('\n', rng.choice(['\r\n', '\r']))
+    if k == 7:
+        doc = doc.replace(' ', rng.choice(['\t', '  ', '\u00a0']), rng.choice([1, 2]))
+    return doc
+
+
+def sensitive_doc(rng, kind, name, f, tries=25):
+    """a text of the format that the normalisation `name` changes the meaning of (None: none found)"""
+    if (kind, name) in _INFEASIBLE:
+        tries = 2
+    for _ in range(tries):
+        t = decorated_doc(rng, kind)
+        u = f(t)
+        if u != t and cli_value(kind, u) != cli_value(kind, t):
+            _INFEASIBLE.discard((kind, name))
+            return t
+    _INFEASIBLE.add((kind, name))
+    return None
+
+
+ALL_VIAS = [[sv, tv] for sv in ('argv', 'file') for tv in ('argv', 'file', 'dash', 'dashfile', 'piped')]
+
+
+def channel_case(rng, spec_txt, target_txt, fmt, indent=None, scalar=False, vias=None, junk='{"junk": 1}',
+                 tty=True, hostile=False, spec_format=None):
+    """ONE case = the same spec text and target text through several pairs of channels"""
+    vias = [list(v) for v in (vias or ALL_VIAS)]
+    if not spec_txt or spec_txt[0] == '-':
+        vias = [v for v in vias if v[0] == 'file']          # not a first positional argument
+    if '\x00' in target_txt:
+        vias = [v for v in vias if v[1] != 'argv']
+    if '\x00' in spec_txt:
+        vias = [v for v in vias if v[0] != 'argv']
+    req = {'spec': spec_txt, 'target': target_txt, 'fmt': fmt, 'indent': indent, 'scalar': scalar,
+           'spec_format': spec_format, 'spec_path': SPEC_PATH, 'target_path': TARGET_PATH, 'junk': junk, 'tty': tty}
+    c = via_case(req, vias[0][0], vias[0][1])
+    c.update({'req': req, 'vias': vias, 'hostile': hostile})
+    return c
+
+
+def spec_for_value(rng, kind, text):
+    """a spec that shows as much of the loaded target as possible (the whole of it, or a leaf)"""
+    f = facts_mod().loaders().get(kind)
+    try:
+        v = f(text) if text else {}
+    except BaseException:
+        return rng.choice(['()', 'a', "{'x': ()}"])
+    if isinstance(v, (dict, list)) and rng.random() < 0.4:
+        return spec_text(rng, gen_spec(rng, v))
+    return rng.choice(['()', '()', "{'x': ()}", "((), ())"])
+
+
+def normalisation_cases(rng, reps=1):
+    """every format x every normalisation that can change the meaning of some document of that format:
+    such a document, through EVERY channel in one case"""
+    for kind in ('json', 'python-literal', 'yaml-safe', 'toml'):
+        for name, f in NORMALISATIONS:
+            for _ in range(reps):
+                t = sensitive_doc(rng, kind, name, f)
+                if t is None:
+                    break
+                c = channel_case(rng, spec_for_value(rng, kind, t), t, rng.choice(KIND_FMTS[kind]),
+                                 indent=rng.choice([None, None, 0, 2]), scalar=rng.random() < 0.2,
+                                 junk=rng.choice(['', '{"junk": 1}']), tty=rng.random() < 0.6)
+                c['sensitive'] = [kind, name]
+                yield c
+
+
+# representatives of the class, one per format x kind of significant outer whitespace (the generator
+# above draws fresh ones on every run)
+SENSITIVE_CORPUS = [
+    ('yaml', 'log: |\n  one\n  two\n', 'log'), ('yaml', 'a: |+\n  x\n\n\n', '()'), ('yaml', 'a: >-\n  x\n  y\n\n', '()'),
+    ('yml', '  a:\n    b: c\n  d: e\n', "{'x': 'a.b'}"), ('yaml', ' ', '()'), ('yaml', '\ta: 1', 'a'),
+    ('yaml', '\x0ca: 1\n', 'a'), (None, ' \n', 'a'), ('json', '\t', '()'), ('json', '\x0c{"a": 1}', 'a'),
+    ('json', '{"a": 1}\u00a0', 'a'), ('python', ' ', '()'), ('python', '\n', 'a'), ('python', "\u00a0{'a': 1}", 'a'),
+    ('toml', '\x0c', '()'), ('toml', 'a = 1\n\x0c', 'a'), ('toml', '\u00a0a = 1', 'a'), ('toml', 'a = 1\r', 'a'),
+]
+
+
+def sensitive_corpus_cases():
+    import random
+    rng = random.Random(19)
+    for fmt, text, spec in SENSITIVE_CORPUS:
+        yield channel_case(rng, spec, text, fmt, junk='', tty=True)
+
+
+def channel_sample(rng, case):
+    """an ordinary generated case, re-delivered through a few pairs of channels"""
+    tx = texts_of(case)
+    if tx is None:
+        return None
+    st, tt = tx
+    av = case['argv']
+    vias = rng.sample(ALL_VIAS, 4)
+    return channel_case(rng, st, tt, av['target_format'], av['indent'], av['scalar'], vias=vias,
+                        junk=rng.choice(['', '{"junk": 1}', 'not json']), tty=case['tty'])
+
+
+def texts_of(case):
+    """(spec text, target text) of a case built by `assemble` (None when a mutation made that ambiguous)"""
+    av = case['argv']
+    files = dict((p, c) for p, c in case['files'])
+    if av.get('spec_file'):
+        st = files.get(av['spec_file'])
+        if av['posargs'] and av['posargs'][0]:
+            return None
+    else:
+        st = av['posargs'][0] if av['posargs'] else None
+    if av.get('target_file') == '-' or (len(av['posargs']) == 2 and av['posargs'][1] == '-'):
+        tt = case['stdin']
+    elif av.get('target_file'):
+        tt = files.get(av['target_file'])
+        if len(av['posargs']) == 2:
+            return None
+    elif len(av['posargs']) == 2:
+        tt = av['posargs'][1]
+    else:
+        tt = case['stdin'] if not case['tty'] else None
+    if not isinstance(st, str) or not isinstance(tt, str) or not tt or tt == '-':
+        return None
+    return st, tt
+
+
+# ------------------------------------------------------------------ the raw command line
+FLAG_KEYS = [('target_file', 'str'), ('target_format', 'str'), ('spec_file', 'str'), ('spec_format', 'str'),
+             ('indent', 'int'), ('scalar', 'const'), ('debug', 'const'), ('inspect', 'const')]
+
+
+def spell(rng, name):
+    """a spelling of the flag face's `normalize_flag_name` maps to the same key"""
+    dashed = name.replace('_', '-')
+    k = rng.randrange(10)
+    if k < 5:
+        return '--' + dashed
+    if k == 5:
+        return '--' + name
+    if k == 6:
+        return '--' + dashed.upper()
+    if k == 7:
+        return '-' + dashed                 # one dash: kept case-sensitive, so lower case it is
+    if k == 8:
+        return '---' + ''.join(rng.choice([c.upper(), c]) for c in dashed)
+    return '--' + ''.join(rng.choice(['-', '_']) if c == '_' else c for c in name).title()
+
+
+def render_raw(rng, av, shuffle=True):
+    """the flags of `av` as a command line: random spellings, `=` or separate values, any order"""
+    groups = []
+    for key, kind in FLAG_KEYS:
+        v = av.get(key)
+        if kind == 'const':
+            if v:
+                groups.append([spell(rng, key) + rng.choice(['', '', '='])])
+        elif v is not None:
+            groups.append([spell(rng, key) + '=' + str(v)] if rng.random() < 0.35 else [spell(rng, key), str(v)])
+    if shuffle:
+        rng.shuffle(groups)
+    return ['glom'] + [x for g in groups for x in g] + list(av['posargs'])
+
+
+BAD_INTS = ['x', '', ' ', '4.0', '1e1', '0x10', '--2', '2 2', 'None', '٣x']
+ODD_INTS = [' 4 ', '+3', '-1', '1_0', '007', '٣', '0', '-0', '12']
+UNKNOWN_FLAGS = ['--nope', '-x', '--target', '--spec-format-x', '--target--file', '-H', '--indent2', '--sclar',
+                 '--target.file', '--format', '-', '--=x', '-=']
+
+
+def flag_region_end(raw):
+    """index of the first argument that is not read as a flag (by position only: values are skipped
+    by the caller that built the groups; here used on command lines whose values do not look like flags)"""
+    i = 1
+    while i < len(raw):
+        a = raw[i]
+        if not a or a[0] != '-' or a in ('-', '--'):
+            break
+        i += 1
+        name = a.lstrip('-').split('=', 1)[0].lower().replace('-', '_')
+        if '=' not in a and name in ('target_file', 'target_format', 'spec_file', 'spec_format', 'indent', 'flagfile'):
+            i += 1
+    return min(i, len(raw))
+
+
+def mutate_raw(rng, case):
+    """one edit of a well-formed command line at every position a parser looks at"""
+    c = json.loads(json.dumps({k: v for k, v in case.items() if k not in ('impl', 'ext', 'argv')}))
+    raw = c['raw']
+    end = flag_region_end(raw)
+    k = rng.randrange(16)
+    if k == 0:        # an unknown flag among the flags
+        raw.insert(rng.randrange(1, end + 1), rng.choice(UNKNOWN_FLAGS))
+    elif k == 1:      # a flag that needs a value is the last argument
+        raw[:] = raw[:end] + [rng.choice(['--target-file', '--indent', '--spec-format', '--flagfile'])]
+    elif k == 2:      # the same flag twice
+        key, kind = rng.choice(FLAG_KEYS)
+        g = [spell(rng, key)] if kind == 'const' else [spell(rng, key), rng.choice(['json', '2', 'python', T + '/x'])]
+        g2 = [spell(rng, key)] if kind == 'const' else [spell(rng, key), rng.choice(['json', '2', 'python', T + '/x'])]
+        raw[1:1] = g
+        raw[flag_region_end(raw):flag_region_end(raw)] = g2
+    elif k == 3:      # --indent with something that is no int / an unusual int
+        raw[1:1] = [spell(rng, 'indent'), rng.choice(BAD_INTS + ODD_INTS)] if rng.random() < 0.6 else \
+            [spell(rng, 'indent') + '=' + rng.choice(BAD_INTS + ODD_INTS)]
+        if any(x.lstrip('-').lower().startswith('indent') for x in raw[3:end + 2]):
+            pass      # then it is a duplicate as well: whatever face says first
+    elif k == 4:      # help, somewhere among the flags
+        raw.insert(rng.randrange(1, end + 1), rng.choice(['-h', '--help', '--HELP', '--h', '--help=', '--help=x', '-help']))
+    elif k == 5:      # help plus an error detected after the flags were read
+        raw.insert(1, rng.choice(['-h', '--help']))
+        raw += rng.choice([['x', 'y', 'z'], ['--', 'x'], []])
+        if rng.random() < 0.4:
+            raw[1:1] = ['--scalar', '--scalar']
+    elif k == 6:      # too many positional arguments
+        raw += ['extra'] * (3 - min(2, len(raw) - end))
+    elif k == 7:      # `--` and what follows it
+        tail = rng.choice([['--'], ['--', 'x'], ['--', '--'], ['a', '--'], ['a', '{"a": 1}', '--'], ['a', '--', '{"a": 1}']])
+        raw[:] = raw[:end] + tail
+    elif k == 8:      # a flag after the first positional argument is a positional argument
+        raw += [rng.choice(['--scalar', '--indent', '--target-format=json', '-h'])]
+    elif k == 9:      # odd first positional arguments
+        raw[:] = raw[:end] + rng.choice([['-'], ['', ''], ['', '-'], ['-', '-'], [''], ['a', '']])
+    elif k == 10:     # a constant flag with a value
+        raw.insert(1, rng.choice(['--scalar=1', '--debug=x', '--inspect=0', '--scalar=', '--help=']))
+    elif k == 11:     # the value of a flag looks like a flag
+        raw[1:1] = [rng.choice(['--target-format', '--spec-format']), rng.choice(['--scalar', '-h', '--', '-', '--indent'])]
+    elif k == 12:     # no arguments at all / not even a program name
+        raw[:] = rng.choice([['glom'], []])
+    elif k == 13:     # format names in another case / with blanks: not the documented names
+        raw[1:1] = [spell(rng, rng.choice(['spec_format', 'target_format'])),
+                    rng.choice(['JSON', 'Python', 'PYTHON-FULL', 'python_full', 'python-full ', ' python', 'Yaml', 'pythonfull', 'python-Full'])]
+        c['trusted_spec'] = True
+    elif k == 14:     # `=` inside a value, an empty value
+        raw[1:1] = [rng.choice(['--target-format=', '--target-format=a=b', '--spec-file=', '--target-file=', '--indent='])]
+    else:             # nothing: the well-formed line itself
+        pass
+    return c
+
+
+FLAGFILE_BODIES = [
+    lambda r: '--scalar\n',
+    lambda r: '--indent 4\n# a comment\n\n--scalar\n',
+    lambda r: '--target-format=%s\n' % r.choice(['json', 'python', 'yaml']),
+    lambda r: '--indent 1 2\n',                         # excessive arguments
+    lambda r: '--nope\n',                               # unknown flag
+    lambda r: "--target-format 'json\n",                # shlex: no closing quotation
+    lambda r: '--indent x\n',
+    lambda r: '--indent\n',
+    lambda r: 'positional\n',
+    lambda r: '--flagfile @T/ff2\n--scalar\n',          # nested
+    lambda r: '--flagfile @T/ff1\n',                    # a cycle (ff1 → ff1)
+    lambda r: '--help\n',
+    lambda r: '--spec-format python\n--spec-format python\n',
+    lambda r: '',
+    lambda r: '--target-format "json"   # quoted, with a comment\n',
+]
+
+
+def flagfile_case(rng, base):
+    """--flagfile: flags from a file (one per line, nested files, every file once)"""
+    c = json.loads(json.dumps({k: v for k, v in base.items() if k not in ('impl', 'ext', 'argv')}))
+    raw = c['raw']
+    body1 = rng.choice(FLAGFILE_BODIES)(rng)
+    body2 = rng.choice(FLAGFILE_BODIES)(rng).replace('@T/ff2', '@T/ff1')
+    c['files'] = [f for f in c['files'] if not f[0].startswith(T + '/ff')]
+    k = rng.randrange(8)
+    if k == 0:
+        c['files'].append([T + '/ff1', {'bytes': b'--scalar \xff\n'.hex()}])     # not UTF-8
+    elif k == 1:
+        pass                                                                         # missing file
+    elif k == 2:
+        c['files'].append([T + '/ff1', {'dir': True}])
+    else:
+        c['files'].append([T + '/ff1', body1])
+        c['files'].append([T + '/ff2', body2])
+    ff = [rng.choice(['--flagfile', '--FLAGFILE', '-flagfile']), T + '/ff1'] if rng.random() < 0.7 else ['--flagfile=' + T + '/ff1']
+    raw[1:1] = ff
+    if rng.random() < 0.25:
+        raw[1:1] = ['--flagfile', T + rng.choice(['/ff2', '/ff1'])]
+    c['flagfiles'] = True
+    return c
+
+
+def raw_cases(rng, n):
+    """command lines as the process receives them"""
+    last = None
+    for i in range(n):
+        base = gen_case(rng)
+        base['raw'] = render_raw(rng, base['argv'])
+        r = rng.random()
+        if r < 0.3:
+            yield base                       # well-formed: the model's parser must arrive at base['argv']
+        elif r < 0.8:
+            yield mutate_raw(rng, base)
+        else:
+            yield flagfile_case(rng, base)
+
+
+def debug_cases(rng, n):
+    """--debug / --inspect: the spec is wrapped in Inspect(…); breakpoint / post-mortem only while standard
+    input is open (the debugger itself is replaced by a marker line, see no_debugger)"""
+    for i in range(n):
+        c = gen_case(rng)
+        if rng.random() < 0.3:
+            c = mutate(rng, c)
+        c['argv']['debug'] = rng.random() < 0.6
+        c['argv']['inspect'] = rng.random() < 0.6 or not c['argv']['debug']
+        if rng.random() < 0.4:
+            c['stdin_open'] = False
+        if rng.random() < 0.5:
+            c['raw'] = render_raw(rng, c['argv'])
+        yield c
+
+
+def process_cases(rng, n):
+    """`python -m glom …` as a process: console_main, the exit status"""
+    for i in range(n):
+        c = gen_case(rng)
+        k = i % 6
+        if k == 1:
+            c = mutate(rng, c)
+        c['tty'] = False                     # a pipe is what a child process gets
+        if isinstance(c['stdin'], str) and texts_of(c) is None and not c['stdin']:
+            c['stdin'] = ''
+        c['raw'] = render_raw(rng, c['argv'])
+        if k == 2:
+            c = mutate_raw(rng, c)
+            c['tty'] = False
+        c['proc'] = True
+        yield c
+
+
+
 def generate(rng, tier, scale, **focus):
-    n = (700 if tier == 'quick' else 12000) * scale
+    n = (520 if tier == 'quick' else 9000) * scale
     last = None
     for i in range(n):
         if last is not None and rng.random() < 0.35:
             yield mutate(rng, last)
             continue
         last = gen_case(rng)
+        if rng.random() < 0.08:
+            cc = channel_sample(rng, last)
+            if cc is not None:
+                yield cc
+                continue
         yield last
+    yield from normalisation_cases(rng, reps=1 if tier == 'quick' else 6)
+    yield from raw_cases(rng, (260 if tier == 'quick' else 5000) * scale)
+    yield from debug_cases(rng, (60 if tier == 'quick' else 1200) * scale)
     yield from malformed_by_class_cases(rng, reps=1 if tier == 'quick' else 4, exhaustive_texts=False)
     yield from unreadable_cases(rng, (36 if tier == 'quick' else 600) * scale)
     if not focus:
+        yield from process_cases(rng, 8 if tier == 'quick' else 150)
         if tier == 'thorough':
             yield from malformed_by_class_cases(rng, exhaustive_texts=True)
         yield from exhaustive(tier)
@@ -858,7 +1526,7 @@ def exhaustive(tier):
 
 def corpus():
     out = (list(hostile_cases()) + list(hostile_target_cases()) + list(malformed_target_cases())
-           + list(named_spec_file_cases()))
+           + list(named_spec_file_cases()) + list(sensitive_corpus_cases()))
     # the inputs that justify the hypotheses of c19_output (Props/C19.lean), on the real CLI
     out.append(assemble("'a'", '-', 'argv', 'argv', None, None, False))            # positional "-" is stdin
     out[-1]['stdin'] = '{"a": 1}'
@@ -882,22 +1550,48 @@ def corpus():
 
 
 def key(case):
-    return {k: case[k] for k in ('argv', 'files', 'stdin', 'tty', 'hostile') if k in case}
+    return {k: case[k] for k in ('argv', 'raw', 'files', 'stdin', 'tty', 'hostile', 'stdin_open', 'req', 'vias', 'proc')
+            if k in case}
 
 
 def nontrivial(case, verdict):
     b = verdict.get('branch', '')
-    return bool(b) and not b.replace('hostile/', '').startswith('silent')
+    return bool(b) and 'silent' not in b.split('/')
 
 
 def shrink(case):
-    base = {k: v for k, v in case.items() if k not in ('impl', 'ext')}
-    av = case['argv']
-    for k, v in (('indent', None), ('scalar', False), ('target_format', None), ('spec_format', None)):
-        if av.get(k) != v:
+    base = {k: v for k, v in case.items() if k not in ('impl', 'ext', 'impl_vias')}
+    if case.get('vias'):
+        # fewer deliveries (two are needed to disagree), then simpler flags
+        if len(case['vias']) > 2:
+            for i in range(len(case['vias'])):
+                c = json.loads(json.dumps(base))
+                del c['vias'][i]
+                yield c
+        for k, v in (('indent', None), ('scalar', False), ('junk', ''), ('tty', True)):
+            if case['req'].get(k) != v:
+                c = json.loads(json.dumps(base))
+                c['req'][k] = v
+                yield c
+        if case['req']['spec'] != '()':
             c = json.loads(json.dumps(base))
-            c['argv'][k] = v
+            c['req']['spec'] = '()'
             yield c
+        return
+    if case.get('raw') is not None and 'argv' not in case:
+        for i in range(1, len(case['raw'])):
+            c = json.loads(json.dumps(base))
+            del c['raw'][i]
+            yield c
+    elif 'argv' in case:
+        av = case['argv']
+        for k, v in (('indent', None), ('scalar', False), ('target_format', None), ('spec_format', None),
+                     ('debug', False), ('inspect', False)):
+            if av.get(k, v) != v:
+                c = json.loads(json.dumps(base))
+                c['argv'][k] = v
+                c.pop('raw', None)
+                yield c
     for i in range(len(case['files'])):
         c = json.loads(json.dumps(base))
         del c['files'][i]
